@@ -11,13 +11,13 @@ from collections import OrderedDict
 ID = "C17"
 
 RULE = ("each run = one operation history (construction + 3..25 mapping operations, keys from a pool of "
-        "36 spellings of 11 names incl. bytes (some with a UTF-8 byte order mark), sharp-s, dotless-i and digraph case variants) on one of "
+        "40 spellings of 12 names incl. bytes (some with a UTF-8 byte order mark), sharp-s, dotless-i and digraph case variants) on one of "
         "CaselessDict/Parameters/Component/Event/Calendar/Timezone, executed step by step against a "
         "reference dict keyed by to_unicode(key).upper(); non-trivial = the history reached at least one "
         "probe (case-variant hit, failing op checked for atomicity, derived object adopted, ...); distinct = "
         "distinct abstract histories (class, op kinds, key-case class and present/absent per step)")
-STATE_MEASURE = "distinct sets of upper-cased names stored (11 names -> 2048 possible)"
-STATE_SPACE = 2048
+STATE_MEASURE = "distinct sets of upper-cased names stored (12 names -> 4096 possible)"
+STATE_SPACE = 4096
 HARNESS_COMPONENTS = ["history generator", "reference dict model", "failing-iterable fault"]
 ASSUMPTIONS = [
     "pop(key) is compared with dict.pop(KEY, None): the classes declare default=None themselves",
@@ -42,7 +42,7 @@ REQUIRED_PROBES["thorough"] = REQUIRED_PROBES["quick"]
 
 CLASSES = ["CaselessDict", "Parameters", "Component", "Event", "Calendar", "Timezone"]
 
-# 36 spellings of 11 names
+# 40 spellings of 12 names
 NAMES = {
     "SUMMARY": [["s", "summary"], ["s", "SUMMARY"], ["s", "Summary"], ["s", "sUmMaRy"],
                 ["b", "summary"], ["b", "SUMMARY"], ["bom", "Summary"]],
@@ -57,6 +57,8 @@ NAMES = {
     # names that are also names of parameters of the mapping methods (a keyword argument must not bind to them)
     "OTHER": [["s", "other"], ["s", "OTHER"], ["s", "Other"]],
     "SELF": [["s", "self"], ["s", "Self"], ["b", "self"]],
+    # bytes that are not UTF-8: decoded with replacement characters (one per undecodable byte), like any other name
+    "\ufffdX": [["s", "\ufffdx"], ["s", "\ufffdX"], ["braw", "ff78"], ["braw", "ff58"]],
 }
 NAME_LIST = list(NAMES)
 SPECIAL = {"STRASSE", "ID", "Ǆ"}
@@ -67,6 +69,8 @@ class InjectedFault(Exception):
 
 
 def key_py(spec):
+    if spec[0] == "braw":
+        return bytes.fromhex(spec[1])
     if spec[0] == "bom":     # bytes that start with a UTF-8 byte order mark: decoded with utf-8-sig, the mark goes
         return b"\xef\xbb\xbf" + spec[1].encode("utf-8")
     return spec[1].encode("utf-8") if spec[0] == "b" else spec[1]
@@ -74,11 +78,13 @@ def key_py(spec):
 
 def norm(spec):
     """The model's key: upper-cased text of the name."""
+    if spec[0] == "braw":
+        return bytes.fromhex(spec[1]).decode("utf-8", "replace").upper()
     return spec[1].upper()
 
 
 def key_class(spec):
-    if spec[0] in ("b", "bom"):
+    if spec[0] in ("b", "bom", "braw"):
         return "bytes"
     s = spec[1]
     if s == s.upper():
